@@ -561,32 +561,65 @@ Proof. intros Hs H1 H2 Ht Hn. rewrite !cont_fold; auto. rewrite Ht, Hn. reflexiv
 (* ------------------------------------------------------------------ *)
 (** * Free values *)
 
-Definition use_text (u : use) : str := match u with UKey v | UFree v => v end.
-Definition is_key (u : use) : bool := match u with UKey _ => true | UFree _ => false end.
+Definition use_text (u : use) : str := match u with UKey v | UFree v => v | UFlag => [] end.
+Definition is_key (u : use) : bool := match u with UKey _ => true | _ => false end.
+Definition not_flag (u : use) : bool := match u with UFlag => false | _ => true end.
 
 (** in multi-value mode a free value is one more use of the argument *)
-Theorem cont_free_values stp o st us :
-  o_multi o = true \/ forallb is_key us = true ->
-  run_events stp o st true us = run_uses_gen stp o st (map use_text us).
+Theorem cont_free_values stp o st fc us :
+  (o_multi o = true /\ forallb not_flag us = true) \/ forallb is_key us = true ->
+  run_events stp o st true fc us = do st' <- run_uses_gen stp o st (map use_text us); Ok (st', fc).
 Proof.
-  revert st. induction us as [|u r IH]; intros st H; simpl; auto.
-  assert (Hr : o_multi o = true \/ forallb is_key r = true).
-  { destruct H as [H|H]; auto. simpl in H. apply andb_true_iff in H. tauto. }
-  destruct u as [v|v]; simpl.
+  revert st. induction us as [|u r IH]; intros st H; [reflexivity|].
+  assert (Hr : (o_multi o = true /\ forallb not_flag r = true) \/ forallb is_key r = true).
+  { destruct H as [[H1 H2]|H]; simpl in *; [left|right]; rewrite andb_true_iff in *; tauto. }
+  destruct u as [v|v|]; cbn [run_events map use_text run_uses_gen].
   - destruct (use_value stp o st v); simpl; auto.
-  - destruct H as [H|H]; [|simpl in H; discriminate H]. rewrite H.
+  - destruct H as [[H _]|H]; [|simpl in H; discriminate H]. rewrite H.
     destruct (use_value stp o st v); simpl; auto.
+  - destruct H as [[_ H]|H]; simpl in H; discriminate H.
 Qed.
 
 (** without multi-value mode the first free value ends the evaluation with an error *)
-Theorem cont_free_value_refused stp o st hl pre v post :
-  o_multi o = false -> forall st', run_events stp o st hl (pre ++ UFree v :: post) <> Ok st'.
+Theorem cont_free_value_refused stp o st hl fc pre v post :
+  o_multi o = false -> forall r, run_events stp o st hl fc (pre ++ UFree v :: post) <> Ok r.
 Proof.
-  intros Hm. revert st hl. induction pre as [|u r IH]; intros st hl st'; simpl.
+  intros Hm. revert st hl fc. induction pre as [|u r IH]; intros st hl fc res; cbn [app run_events].
   - rewrite Hm, andb_false_r. discriminate.
-  - destruct u as [w|w].
+  - destruct u as [w|w|]; cbn [run_events].
     + destruct (use_value stp o st w); simpl; try discriminate. apply IH.
     + rewrite Hm, andb_false_r. discriminate.
+    + destruct (card_got flag_card fc); cbn [bind]; try discriminate. apply IH.
+Qed.
+
+(** a flag ends the value list: a free value that follows a use of the flag
+    does not reach the container - without a positional argument the command
+    line is refused, in multi-value mode too *)
+Theorem cont_flag_ends_value_list stp o st hl fc pre v post :
+  forall r, run_events stp o st hl fc (pre ++ UFlag :: UFree v :: post) <> Ok r.
+Proof.
+  revert st hl fc. induction pre as [|u r IH]; intros st hl fc res; cbn [app run_events].
+  - destruct (card_got flag_card fc); cbn [bind andb]; discriminate.
+  - destruct u as [w|w|]; cbn [run_events].
+    + destruct (use_value stp o st w); simpl; try discriminate. apply IH.
+    + destruct (hl && o_multi o); [|discriminate].
+      destruct (use_value stp o st w); simpl; try discriminate. apply IH.
+    + destruct (card_got flag_card fc); cbn [bind]; try discriminate. apply IH.
+Qed.
+
+(** whatever command line is accepted: the container is the result of its own
+    uses (keyed and free values in order) - the flag changes acceptance only *)
+Theorem cont_events_uses stp o us : forall st hl fc st1 fc1,
+  run_events stp o st hl fc us = Ok (st1, fc1) ->
+  run_uses_gen stp o st (map use_text (filter not_flag us)) = Ok st1.
+Proof.
+  induction us as [|u r IH]; intros st hl fc st1 fc1 H.
+  - simpl in *. congruence.
+  - destruct u as [w|w|]; cbn [run_events filter not_flag map use_text run_uses_gen] in *.
+    + destruct (use_value stp o st w); cbn [bind] in *; try discriminate. eapply IH; eauto.
+    + destruct (hl && o_multi o); [|discriminate].
+      destruct (use_value stp o st w); cbn [bind] in *; try discriminate. eapply IH; eauto.
+    + destruct (card_got flag_card fc); cbn [bind] in *; try discriminate. eapply IH; eauto.
 Qed.
 
 (* ------------------------------------------------------------------ *)
@@ -1170,18 +1203,18 @@ Definition w_vb : list str := [[45; 108]; [49]]%N.
 
 (** T[4] with unique data: the value 0 is dropped because the unfilled slots hold 0 *)
 Lemma pinned_array_unique_witness :
-  option_map c_val (match eval_pinned (KArr 4) (o_uniq_only (KArr 4)) (CArr [0; 0; 0; 0]%Z 0) w_arr with
-                    | Ok st => Some st | _ => None end) = Some (CArr [5; 0; 0; 0]%Z 1)
-  /\ option_map c_val (match eval (KArr 4) (o_uniq_only (KArr 4)) (CArr [0; 0; 0; 0]%Z 0) w_arr with
-                       | Ok st => Some st | _ => None end) = Some (CArr [0; 5; 0; 0]%Z 2).
+  option_map c_val (match eval_pinned (KArr 4) (o_uniq_only (KArr 4)) (CArr [0; 0; 0; 0]%Z 0) [] w_arr with
+                    | Ok r => Some (fst r) | _ => None end) = Some (CArr [5; 0; 0; 0]%Z 1)
+  /\ option_map c_val (match eval (KArr 4) (o_uniq_only (KArr 4)) (CArr [0; 0; 0; 0]%Z 0) [] w_arr with
+                       | Ok r => Some (fst r) | _ => None end) = Some (CArr [0; 5; 0; 0]%Z 2).
 Proof. split; vm_compute; reflexivity. Qed.
 
 (** vector<bool> of size 1: position 1 is lost *)
 Lemma pinned_vector_bool_witness :
-  option_map c_val (match eval_pinned KVecBool (o_plain KVecBool) (CVBool 1 []) w_vb with
-                    | Ok st => Some st | _ => None end) = Some (CVBool 1 [])
-  /\ option_map c_val (match eval KVecBool (o_plain KVecBool) (CVBool 1 []) w_vb with
-                       | Ok st => Some st | _ => None end) = Some (CVBool 2 [1%N]).
+  option_map c_val (match eval_pinned KVecBool (o_plain KVecBool) (CVBool 1 []) [] w_vb with
+                    | Ok r => Some (fst r) | _ => None end) = Some (CVBool 1 [])
+  /\ option_map c_val (match eval KVecBool (o_plain KVecBool) (CVBool 1 []) [] w_vb with
+                       | Ok r => Some (fst r) | _ => None end) = Some (CVBool 2 [1%N]).
 Proof. split; vm_compute; reflexivity. Qed.
 
 (* ------------------------------------------------------------------ *)
